@@ -147,6 +147,24 @@ def describe_ia(a: IndividualAddress) -> str:
     return f"ok {int(raw)} {clean(s)} {k} rt={rt} knx={knx}"
 
 
+def _twice(make, describe):
+    """History independence (harness/lib/poison.py): the address is built twice, the first result's attributes are overwritten
+    in between; an address class handing out shared mutable instances shows up as `err other:SharedMutableState`."""
+    from harness.lib.poison import poison
+    try:
+        a = make()
+    except Exception as e:  # noqa: BLE001
+        return exc_class(e)
+    first = describe(a)
+    poison(a)
+    try:
+        b = make()
+    except Exception as e:  # noqa: BLE001
+        return "err other:SharedMutableState:" + type(e).__name__
+    second = describe(b)
+    return second if second == first else "err other:SharedMutableState"
+
+
 def run_impl(case):
     t = case["op"].split()
     op = t[1]
@@ -175,24 +193,12 @@ def run_impl(case):
         if op in ("gaknx", "iaknx"):
             b = b"" if t[2] == "-" else bytes.fromhex(t[2])
             cls = GroupAddress if op == "gaknx" else IndividualAddress
-            try:
-                a = cls.from_knx(b)
-            except Exception as e:  # noqa: BLE001
-                return exc_class(e)
-            return describe_ga(a) if op == "gaknx" else describe_ia(a)
-        v = build_value(case, t[2])
+            return _twice(lambda: cls.from_knx(b), describe_ga if op == "gaknx" else describe_ia)
         if op == "ga":
-            try:
-                a = GroupAddress(v)
-            except Exception as e:  # noqa: BLE001
-                return exc_class(e)
-            return describe_ga(a)
+            return _twice(lambda: GroupAddress(build_value(case, t[2])), describe_ga)
         if op == "ia":
-            try:
-                a = IndividualAddress(v)
-            except Exception as e:  # noqa: BLE001
-                return exc_class(e)
-            return describe_ia(a)
+            return _twice(lambda: IndividualAddress(build_value(case, t[2])), describe_ia)
+        v = build_value(case, t[2])
         if op == "iga":
             try:
                 a = InternalGroupAddress(v)
@@ -235,6 +241,9 @@ def oracle(case, out):
         if op in ("gaknx", "iaknx") and t[2] != "-" and len(t[2]) == 4:
             return f"two octets {t[2]} were rejected"
         return None
+    if out.startswith("err other:SharedMutableState"):
+        return (f"{op}: building the address again after the first result's attributes were overwritten gives a different address "
+                "(address objects share mutable state): text and wire round trips depend on the history")
     if out.startswith("err other:"):
         return f"{op} constructor raised {out[10:]} instead of CouldNotParseAddress"
     f = out.split()
